@@ -42,7 +42,7 @@ func Harness_K9_Prepend() {
 	qualified := vrtBool()
 	qpath := vrtString()
 	vrtAssume(vrtIdent(name) && name != "" && !strings.Contains(name, "."))
-	vrtAssume(vrtPath(pkg) && vrtPath(qpath) && qpath != "")
+	vrtAssume(vrtDotPath(pkg) && vrtDotPath(qpath) && qpath != "")
 	typ := name
 	if qualified {
 		typ = qpath + "." + name
@@ -69,7 +69,7 @@ func Harness_K9_WithType() {
 	override := vrtBool()
 	opath := vrtString()
 	vrtAssume(vrtIdent(name) && name != "" && !strings.Contains(name, "."))
-	vrtAssume(vrtPath(qpath) && qpath != "" && vrtPath(opath) && opath != "")
+	vrtAssume(vrtDotPath(qpath) && qpath != "" && vrtDotPath(opath) && opath != "")
 	typ := name
 	if qualified {
 		typ = qpath + "." + name
@@ -99,7 +99,7 @@ func Harness_K9_WithCall() {
 	name, args, qpath := vrtString(), vrtString(), vrtString()
 	qualified := vrtBool()
 	vrtAssume(vrtIdent(name) && name != "" && !strings.Contains(name, "."))
-	vrtAssume(vrtPath(qpath) && qpath != "")
+	vrtAssume(vrtDotPath(qpath) && qpath != "")
 	vrtAssume(vrtPrintable(args) && !strings.Contains(args, "[") && !strings.Contains(args, "]") && !strings.Contains(args, "*"))
 	call := name + "(" + args + ")"
 	t := call
